@@ -3,7 +3,8 @@
    Model (Model/Comp.v): [stream] = the inline payload sequence of wasmparser's parse_all, [parse] = the loop of
    Component::parse_comp with its per-level stack, the pushes on the parent's stack, the run-length section log,
    [replay] = Component::encode_comp; [roundtrip sf t = replay sf (parse t)], where [sf] is the table of
-   component-type items that wrappers.rs re-encodes differently (D28; empty when there is none).
+   component-type items that wrappers.rs re-encodes differently (D28, D29; empty when there is none);
+   [reenc_hit sf t]: some component-type item of t (any depth) has a different image in sf.
    Specification (Check/CheckComp.v): [eqv out t] -- equal normal forms: same kind sequence after merging adjacent
    item sections of one kind, same items in order, same modules / custom / start sections, same component-name
    entries, recursively for nested components.
@@ -14,7 +15,7 @@
 
    The full-strength statement "forall t, wf t -> roundtrip t equivalent to t" is FALSE of the faithful model
    (C27_refuted_D14, C27_refuted_D14_panic, C27_refuted_D28); what holds, for every tree of any width, any
-   interleaving and ANY depth, is the statement outside the two known classes. *)
+   interleaving and ANY depth, is the statement outside D14 and for trees without a re-encoded item (D28 / D29). *)
 From Coq Require Import List NArith Bool.
 Import ListNotations.
 From Orca Require Import Util Comp CheckComp CompProofs.
@@ -27,10 +28,11 @@ Theorem C27_roundtrip_exact :
 Proof. exact roundtrip_exact. Qed.
 Print Assumptions C27_roundtrip_exact.
 
-(* Hence: outside D14 and D28, parse-then-encode yields a tree equivalent to the input. *)
+(* Hence: outside D14 and without an item that wrappers.rs re-encodes differently (D28, D29), parse-then-encode
+   yields a tree equivalent to the input. *)
 Theorem C27_roundtrip :
   forall (sf : list (N * N)) (t : list node),
-    wf t = true -> known_D14 t = false -> known_D28 sf t = false ->
+    wf t = true -> known_D14 t = false -> reenc_hit sf t = false ->
     exists out, roundtrip sf t = Some out /\ eqv out t.
 Proof. exact roundtrip_equiv. Qed.
 Print Assumptions C27_roundtrip.
@@ -38,7 +40,7 @@ Print Assumptions C27_roundtrip.
 (* The depth-bounded form of DESIGN.md section 5: nesting depth <= 2 (root = 0) is always outside D14. *)
 Theorem C27_depth2 :
   forall (sf : list (N * N)) (t : list node),
-    wf t = true -> (depth t <= 2)%nat -> known_D28 sf t = false ->
+    wf t = true -> (depth t <= 2)%nat -> reenc_hit sf t = false ->
     exists out, roundtrip sf t = Some out /\ eqv out t.
 Proof. intros sf t Hw Hd. apply roundtrip_equiv; [exact Hw|apply d14_needs_depth3; exact Hd]. Qed.
 Print Assumptions C27_depth2.
@@ -46,7 +48,7 @@ Print Assumptions C27_depth2.
 (* The unrestricted statement is refuted by the smallest witness: a section follows the only child of a
    component that has a grandchild -- (component (component (component (core module)) (type ..))). *)
 Theorem C27_refuted_D14 :
-  exists t, wf t = true /\ known_D14 t = true /\ known_D28 [] t = false /\
+  exists t, wf t = true /\ known_D14 t = true /\ reenc_hit [] t = false /\
             exists out, roundtrip [] t = Some out /\ ~ eqv out t.
 Proof. exists witness_D14. exact roundtrip_refuted_D14. Qed.
 Print Assumptions C27_refuted_D14.
@@ -58,15 +60,16 @@ Theorem C27_refuted_D14_panic :
 Proof. exists witness_D14_panic. exact roundtrip_refuted_D14_panic. Qed.
 Print Assumptions C27_refuted_D14_panic.
 
-(* D28: an item that wrappers.rs::convert_component_type re-encodes differently (payload-less stream -> future). *)
+(* D28 / D29: an item that wrappers.rs re-encodes differently (payload-less stream -> future; explicit core rec
+   group inside an instance type -> separate types): the round trip returns the re-encoded item. *)
 Theorem C27_refuted_D28 :
-  exists sf t, wf t = true /\ known_D14 t = false /\ known_D28 sf t = true /\
+  exists sf t, wf t = true /\ known_D14 t = false /\ reenc_hit sf t = true /\
                exists out, roundtrip sf t = Some out /\ ~ eqv out t.
 Proof. exists [(1, 2)]%N, [NItems ICompType [1%N]]. exact roundtrip_refuted_D28. Qed.
 Print Assumptions C27_refuted_D28.
 
 (* Whenever the implementation's observed output agrees with the model (correspondence check) on a case inside the
-   domain and outside both known classes, and the validator accepts the output, the independent property checker
+   domain and outside every known class (D14, D28, D29), and the validator accepts the output, the independent property checker
    accepts it. *)
 Theorem C27_checker_sound :
   forall c : ccase,
@@ -86,7 +89,7 @@ Example C27_nonvacuous :
   let t := [NItems IImport [1]; NItems IImport [2; 3]; NNames [(9, 4); (0, 5)]; NItems IAlias [6];
             NComp [NMod 7 [20]; NItems ICoreInst [8]; NItems ICoreInst []; NComp [NCustom 9; NComp [NMod 10 []]]];
             NStart 11; NMod 12 []; NMod 13 []]%N in
-  wf t = true /\ known_D14 t = false /\ known_D28 [] t = false /\ depth t = 4%nat /\
+  wf t = true /\ known_D14 t = false /\ reenc_hit [] t = false /\ depth t = 4%nat /\
   roundtrip [] t
   = Some [NItems IImport [1; 2; 3]; NItems IAlias [6];
           NComp [NMod 7 []; NItems ICoreInst [8]; NComp [NCustom 9; NComp [NMod 10 []; NNames []]; NNames []]; NNames []];
